@@ -259,7 +259,19 @@ func (fsm *FSM) Snapshot() (raft.FSMSnapshot, error) {
 	compactionEnd := compactionStart.Add(-1 * exp)
 
 	tmpServer := ircserver.NewIRCServer("testnetwork", time.Now())
-	if oldState, ok := fsm.lastSnapshotState[first-1]; !ok {
+	// The state to start from is the most recent one which covers everything
+	// before |first|. Usually that is first-1, but when the previous snapshot
+	// compacted all entries, its state is stored under the last index it
+	// compacted, and raft-internal entries (which are not stored in ircstore)
+	// may have been appended since.
+	var prevIndex uint64
+	havePrev := false
+	for key := range fsm.lastSnapshotState {
+		if key < first && (!havePrev || key > prevIndex) {
+			prevIndex, havePrev = key, true
+		}
+	}
+	if oldState, ok := fsm.lastSnapshotState[prevIndex]; !ok || !havePrev {
 		if first == 1 {
 			// This is the first snapshot which this RobustIRC network
 			// is taking, there cannot be previous state.
@@ -271,11 +283,11 @@ func (fsm *FSM) Snapshot() (raft.FSMSnapshot, error) {
 		if _, err := tmpServer.Unmarshal(oldState); err != nil {
 			return nil, err
 		}
-		// All snapshot states but first-1 can now be deleted. first-1
+		// All snapshot states but prevIndex can now be deleted. prevIndex
 		// needs to be retained in case the snapshot which is
 		// currently in progress fails and needs to be repeated.
 		for key, _ := range fsm.lastSnapshotState {
-			if key == first-1 {
+			if key == prevIndex {
 				continue
 			}
 			delete(fsm.lastSnapshotState, key)
@@ -284,6 +296,9 @@ func (fsm *FSM) Snapshot() (raft.FSMSnapshot, error) {
 
 	iterator := fsm.ircstore.GetBulkIterator(first, last+1)
 	defer iterator.Release()
+	// When all entries are compacted, the state includes everything up to
+	// (and including) |last|.
+	first = last + 1
 	available := iterator.First()
 	for available {
 		var nlog raft.Log
